@@ -32,6 +32,8 @@ import (
 	"github.com/mandykoh/prism/meta/icc"
 	"github.com/mandykoh/prism/prophotorgb"
 	"github.com/mandykoh/prism/srgb"
+
+	"verif/harness/gen"
 )
 
 const maxG = 128
@@ -327,6 +329,15 @@ func trial(t *target, n int, sched []int32) (ok bool, infeasible bool) {
 // process: image transforms with parallelism > 1 on shared images, concurrent
 // loaders, concurrent adaptation constructors.
 func sharedWork(file []byte) {
+	// files of the other formats next to the one given: concurrent loads of DIFFERENT formats
+	var others [][]byte
+	if file != nil {
+		prof := gen.SimpleProfile(800, "race", true, 3)
+		j, _ := gen.BuildJPEG([]gen.JSeg{gen.SOI(), gen.JFIF(), gen.ICCSeg(1, 1, prof), gen.DQT(0),
+			gen.SOF(0xC0, 8, 21, 34, gen.StdComps(3, 0x22)), gen.DHT(0, 0), gen.SOS(3, gen.EntropyBytes(60, 5)), gen.EOI()})
+		w, _ := gen.BuildWebP([]gen.WChunk{gen.VP8X(gen.VP8XICC, 55, 66), gen.WC("ICCP", prof), gen.VP8(55, 66, 0, 0, gen.VP8Body(40))}, -1)
+		others = [][]byte{file, j, w, gen.Payload(300, 1, false)}
+	}
 	src := image.NewNRGBA(image.Rect(0, 0, 37, 29))
 	for i := range src.Pix {
 		src.Pix[i] = byte(i * 31)
@@ -344,7 +355,9 @@ func sharedWork(file []byte) {
 			a := ciexyz.AdaptBetweenXYYWhitePoints(ciexyy.D50, ciexyy.D65)
 			_ = a.Apply(ciexyz.Color{X: 0.3, Y: 0.4, Z: 0.5})
 			if file != nil {
-				autometa.Load(bytes.NewReader(file))
+				for q := 0; q < 4; q++ {
+					autometa.Load(bytes.NewReader(others[(k+q)%len(others)]))
+				}
 			}
 		}(k)
 	}
